@@ -119,16 +119,6 @@ func zvNbrByName(n string) zvNbr {
 	return zvNbr1
 }
 
-func zvClamp(v, lo, hi int) int {
-	if v < lo {
-		return lo
-	}
-	if v > hi {
-		return hi
-	}
-	return v
-}
-
 // zvC31Replay runs one history. Oracle clauses are evaluated for the LAST event
 // only (prefixes are histories of their own); extend runs the silent extension.
 func zvC31Replay(hist []string, extend bool, trace bool) (obs zvC31Obs, viols []zvC31Viol, status vsched.Status, crash string) {
